@@ -465,6 +465,13 @@ func entryMode(args []string) {
 			doc, _ := g.document()
 			docs = append(docs, doc)
 		}
+		// single tokens larger than any fixed-size buffer an adapter or a reader might use
+		if polCounter <= 3 {
+			for _, n := range []int{1023, 1025, 4097} {
+				docs = append(docs, "<p>"+strings.Repeat("a", n)+"</p>", "<b title=\""+strings.Repeat("t", n)+"\">x</b>", "x<!--"+strings.Repeat("c", n)+"-->y", strings.Repeat("&amp;", n/5+1))
+			}
+			sum.Distribution["large-single-token-documents"] += 12
+		}
 		for _, doc := range docs {
 			ref := gp.Sanitize(doc)
 			distinct[ref] = true
@@ -501,7 +508,10 @@ func entryMode(args []string) {
 			for i := range one {
 				one[i] = 1
 			}
-			chunkings = append(chunkings, nil, one)
+			chunkings = append(chunkings, nil)
+			if len(doc) <= 2000 {
+				chunkings = append(chunkings, one)
+			}
 			if len(doc) <= 48 {
 				for k := 1; k < len(doc); k++ {
 					chunkings = append(chunkings, []int{k})
@@ -511,6 +521,9 @@ func entryMode(args []string) {
 				var sp []int
 				for rem := len(doc); rem > 0; {
 					c := rng.Intn(7)
+					if len(doc) > 2000 {
+						c = rng.Intn(3000)
+					}
 					sp = append(sp, c)
 					rem -= c
 				}
